@@ -254,6 +254,7 @@ def canon_key(ex, obs=None) -> str:
             None if nd.vsrc is None else [nd.vsrc[0] == idx, nd.vsrc[1]],
             None if nd.gsrc is None else [nd.gsrc[0] == idx, nd.gsrc[1]],
             [nd.msrc[0] == idx, nd.msrc[1]],
+            nd.pver,
             pg_in,
             sorted(nd.pgs),
             twin(idx),
@@ -696,7 +697,7 @@ def _footprint(ex, op, pre, pre_uid):
         except Exception:  # pylint: disable=broad-except
             own_type = None
     allow["own_type"] = own_type
-    if name in ("rename", "flag", "values", "vertices", "meta"):
+    if name in ("rename", "flag", "values", "vertices", "meta", "parts"):
         add(pre.ws_of[op[1]], op[1], ALL)
     elif name in ("mk_group", "mk_obj"):
         wsn, pu = handle_uid(op[1] if name == "mk_group" else op[2])
